@@ -28,9 +28,6 @@ package main
 
 import (
 	"fmt"
-	"go/ast"
-	"go/parser"
-	"go/token"
 	"os"
 	"path/filepath"
 	"strconv"
@@ -41,6 +38,7 @@ import (
 	"github.com/ontio/ontology/core/types"
 	"verif/harness/internal/hx"
 	"verif/harness/internal/ledgerkit"
+	"verif/harness/internal/ledgersrc"
 )
 
 const nAccts = 4
@@ -76,62 +74,20 @@ func readCommitOrder() {
 	if repo == "" {
 		repo = "/repo"
 	}
-	file := filepath.Join(repo, "core/store/ledgerstore/ledger_store.go")
-	fset := token.NewFileSet()
-	f, err := parser.ParseFile(fset, file, nil, 0)
+	// same reader as the factgen group Recover (package ledgersrc): the CommitTo calls are located by role, following
+	// the commit / replay code into unexported same-receiver helpers
+	c, r, err := ledgersrc.Orders(repo)
 	if err != nil {
+		// not understood: say so (once, as a failing case) and go on with the order the pinned tree ships, so that the
+		// remaining lines still compare implementation and model instead of all turning into disagreements
 		srcOrderErr = err.Error()
+		srcOrder, srcRecOrder = "bes", "es"
 		return
 	}
-	letters := map[string]string{"blockStore": "b", "eventStore": "e", "stateStore": "s"}
-	commitsOf := func(fn string) (string, bool) {
-		order, found := "", false
-		for _, d := range f.Decls {
-			fd, ok := d.(*ast.FuncDecl)
-			if !ok || fd.Name.Name != fn || fd.Body == nil {
-				continue
-			}
-			found = true
-			ast.Inspect(fd.Body, func(n ast.Node) bool {
-				ce, ok := n.(*ast.CallExpr)
-				if !ok {
-					return true
-				}
-				sel, ok := ce.Fun.(*ast.SelectorExpr)
-				if !ok || sel.Sel.Name != "CommitTo" {
-					return true
-				}
-				if in, ok := sel.X.(*ast.SelectorExpr); ok {
-					if id, ok := in.X.(*ast.Ident); ok && id.Name == "this" {
-						order += letters[in.Sel.Name]
-					}
-				}
-				return true
-			})
-		}
-		return order, found
-	}
-	distinct := func(o string) bool {
-		for i, c := range o {
-			if strings.ContainsRune(o[i+1:], c) {
-				return false
-			}
-		}
-		return true
-	}
-	var found bool
-	srcOrder, found = commitsOf("submitBlock")
-	if !found || len(srcOrder) != 3 || !distinct(srcOrder) {
-		srcOrderErr = fmt.Sprintf("%s: submitBlock does not call blockStore/eventStore/stateStore.CommitTo exactly once each (found %q)", file, srcOrder)
-		srcOrder = ""
-		return
-	}
-	srcRecOrder, found = commitsOf("recoverStore")
-	if !found || srcRecOrder == "" || !distinct(srcRecOrder) {
-		srcOrderErr = fmt.Sprintf("%s: recoverStore's CommitTo calls not readable (found %q)", file, srcRecOrder)
-		srcRecOrder = ""
-	}
+	srcOrder, srcRecOrder = c, r
 }
+
+var orderErrReported bool
 
 // reachable: the subset is the set of the first k commits of the source's order for some k.
 func reachable(set string) bool {
@@ -509,8 +465,9 @@ func exec(line string) hx.Result {
 	if !ok || sp.h < 1 || sp.h+2 > n {
 		return hx.Result{Out: "skip", Kind: "skip"}
 	}
-	if srcOrder == "" || srcRecOrder == "" {
-		return hx.Result{Out: "order-unknown", Fail: "commit order of submitBlock / recoverStore not readable: " + srcOrderErr, Class: "commit-order-unreadable", Kind: "harness-error"}
+	if srcOrderErr != "" && !orderErrReported {
+		orderErrReported = true
+		return hx.Result{Out: "order-unknown", Fail: "commit order of submitBlock / recoverStore not readable (continuing with the shipped order bes/es): " + srcOrderErr, Class: "commit-order-unreadable", Kind: "harness-error"}
 	}
 	h := sp.h
 	set := sp.set
